@@ -3,7 +3,8 @@
               from that site (Gen_dqstate) computes from the old value, for some admissible value of the locals that
               are not visible in the trace (qos, flags, the width a drainer owns);
    word_ok  : the word-level projection of the invariant proved in Proofs/CLane_main.v (width accounting);
-   owner_ok : the word a barrier owner sees when it gives the lock back.
+   owner_ok : the word a barrier owner sees when it gives the lock back;
+   acct_ok  : the width accounting on a word and the ghost state reconstructed from the run.
    Definitions only. *)
 From Coq Require Import ZArith Bool List.
 From Verif Require Import Word Gen_consts Gen_dqstate DqFields CLane.
@@ -67,6 +68,14 @@ Definition word_ok (W w : Z) : bool :=
 (* what a thread that runs _dispatch_lane_barrier_complete after its barrier item sees just before its own write *)
 Definition owner_ok (w self : Z) : bool :=
   let r := dec w in (f_ib r =? 1) && (f_owner r =? self).
+
+(* the width accounting itself (the equation of C04_width_accounting) on a word and a ghost state reconstructed from a
+   recorded run: held = intervals held by readers / redirected items / granted waiters + intervals owned by the lock holder,
+   bm = a barrier owner exists.  Upper and lower bound on the width field; IN_BARRIER exactly with a barrier owner. *)
+Definition acct_ok (W w held : Z) (bm : bool) : bool :=
+  let r := dec w in (f_wq r =? 4096 - W + held + (W - 1) * f_pb r) && (f_ib r =? (if bm then 1 else 0)).
+Definition acct_case (c : list Z) : bool :=
+  match c with [W; w; held; bm] => acct_ok W w held (bm =? 1) | _ => false end.
 
 (* batched evaluation for the driver: one case = [code; W; self; old; new; k1; k2; ...] *)
 Definition tr_case (c : list Z) : bool :=
